@@ -92,6 +92,8 @@ Proof.
   - split; [|eqv]. apply observe_equiv. eqv.
   - split; [reflexivity|]. unfold restart, load. cbn. eqv.
   - split; [reflexivity | eqv].
+  - split; [reflexivity | eqv].
+  - destruct (bal_of (d_bal d2) a <? amt)%N; split; try reflexivity; eqv.
 Qed.
 
 Lemma observations_equiv : forall l s1 s2, sequiv s1 s2 -> observations s1 l = observations s2 l.
